@@ -50,7 +50,9 @@ CHECKS.update({
                      'forked child running the real application is killed with os._exit right after it; the same command is '
                      'then run again on the same on-disk database; the concatenated two-run trace is judged by TLC: nothing '
                      'done before the kill is requested again, nothing stuck in progress, no discovered row lost, the two '
-                     'runs together cover the uninterrupted crawl.  ' + E2E_NOTE, design_ref='DESIGN.md 5 (C03)'),
+                     'runs together cover the uninterrupted crawl.  The scenarios include sitemaps, a depth limit with two paths, '
+                     'statement-level kill points, kills during start-up (schema statements) and a recursive FTP crawl against a '
+                     'scripted FTP server (LIST / RETR as the requests of the model URLs).  ' + E2E_NOTE, design_ref='DESIGN.md 5 (C03), 12.6'),
     'C18': dict(technique='TLA+ crawl model (adversarial server) + TLC; real crawls against hostile scripted servers '
                           'validated by CrawlMon',
                 text='Redirect loops and chains over 301/302/307/308, missing and unparsable Location, perpetual 5xx, '
@@ -172,7 +174,9 @@ CHECKS['C05'] = dict(
               'an independent reader and judged by the TLC monitor',
     text=WARC_TEXT + 'C05: 13 clauses on fault-free runs of 55 (quick) to 1500 (thorough) scenarios: record sequence, one '
          'gzip member per record, framing, one line per named field, Content-Length, unique IDs, warcinfo pointer, block '
-         'digest, payload-digest range for request/response/revisit.  SHA-1 values are computed by the reader.',
+         'digest, payload-digest range for request/response/revisit, and - against what the scripted server sent - the payload '
+         'digest is that of the body sent (interim 1xx responses, line-break octets inside header values).  SHA-1 values are '
+         'computed by the reader.',
     design_ref='DESIGN.md 5 (C05-C07)')
 CHECKS['C06'] = dict(
     technique='TLA+ model with IOError and Crash actions + TLC; fault and kill enumeration at every operation of every append '
@@ -181,13 +185,15 @@ CHECKS['C06'] = dict(
     text=WARC_TEXT + 'C06: at every operation index an injected OSError (journal and archive open/write/close/unlink) and a '
          'really killed forked child + restart: content restored and journal removed after a handled fault; after a kill '
          'the archive is valid or the journal names the pre-append length and truncating restores validity; start-up '
-         'refuses while a journal exists.',
+         'refuses while a journal exists - also for archive names that mean something to glob ([...], *).',
     design_ref='DESIGN.md 5 (C05-C07)')
 CHECKS['C07'] = dict(
     technique='TLA+ model of append + CDX + rollover + TLC; CDX files written by the real recorder judged by the TLC monitor',
     text=WARC_TEXT + 'C07: one CDX line per response record and no stray line; file/offset/length address exactly the '
          'record (one gzip member when compressed) across rollover and appending; URL, record id, payload digest, status '
-         'and MIME type equal the record / archived response (header shapes up to and beyond 4 KiB).',
+         'and MIME type equal the record / archived response (header shapes up to and beyond 4 KiB) and the response the '
+         'scripted server sent (the final one after interim responses; its own Content-Type field); archive names with '
+         'blanks and glob characters.',
     design_ref='DESIGN.md 5 (C05-C07)')
 URL_TEXT = ('UrlNorm.tla defines the URL input space as structured families over an alphabet of about 30 character classes '
             '(authority, path, query/fragment, cross and encoding clusters; base input + respellings), an '
@@ -218,17 +224,20 @@ CHECKS['C15'] = dict(
          'configurations, checks Contained on the transcription and prints the scenarios; each runs through the real '
          'PathNamer / BaseFileWriterSession under a real temporary directory; TLC evaluates Returns, Prefixed, Contained and '
          'Inside (realpath) on the chosen paths (VIOLATION) and compares with the transcription (DRIFT).  18 k scenarios '
-         'quick, 377 k thorough.',
+         'quick, 377 k thorough.  Names that reach the file system without PathNamer (symbolic links of FTP listings, '
+         'listing and Content-Disposition names) are covered by whole crawls with hostile names under an empty directory: '
+         'anything that appears next to the crawl\'s own directory is a violation.',
     design_ref='DESIGN.md 5 (C15)')
 CHECKS['C09'] = dict(
     technique='TLA+ exception-propagation model (ErrorFlow.tla) checked by TLC; TLC-enumerated fault, malformation, cut and '
               'document cases executed against the real application over an in-memory network and through the real '
               'scrapers; each recorded run judged by a TLC monitor (clauses + drift against the model prediction)',
     text='PARTIAL (see level_note).  ErrorFlow.tla transcribes every try/except frame between the primitives and '
-         'Application.run (64 sites x 31 exception kinds, CPython + wpull class hierarchy); TLC computes the terminal outcome '
+         'Application.run (76 sites x 31 exception kinds, CPython + wpull class hierarchy); TLC computes the terminal outcome '
          'of every (site, kind) and checks that the remotely provokable pairs that escape are exactly the documented ones.  '
          'On the real code: all 1263 injectable (site, kind) faults in a complete crawl; 146 grammar-level malformation '
-         'classes x segmentation over HTTP, robots.txt and FTP (scripted FTP server); premature close at all 628 byte '
+         'classes x segmentation over HTTP, robots.txt and FTP (scripted FTP server; also with --preserve-permissions, '
+         '--retr-symlinks=off, --continue with partial local files, --post-data); premature close at all 628 byte '
          'offsets of 5 reference responses; up to 57 k token-level documents x charset labels through the html5lib, CSS, '
          'JavaScript and sitemap scrapers; ErrorFlowMon (TLC) judges each run (no hang, no escape, others fetched, all rows '
          'final, target final).',
